@@ -9,7 +9,7 @@
    Tier S unless marked Tier O. *)
 From Coq Require Import List Arith Bool PrimFloat.
 From Knee Require Import Num NumFloat NpList OrdLaws FloatOrder Model.Mapping Model.Rdp
-  Proofs.ListFacts Proofs.MappingFacts Proofs.SegFacts Proofs.RdpFacts Proofs.RdpUnique Run.RdpTables.
+  Proofs.ListFacts Proofs.MappingFacts Proofs.SegFacts Proofs.RdpFacts Proofs.RdpUnique Proofs.RdpCostFacts Model.Metrics Model.LinearFit Model.RdpCost Run.RdpTables.
 Import ListNotations.
 Local Open Scope num_scope.
 
@@ -116,4 +116,54 @@ Example C04_example :
   @C04_code FloatNum (dist_of dt) (cost_from ct) false t 6 (Some ([0; 3; 5], [(0, 2); (3, 1)])) = 4 /\
   @C04_code FloatNum (dist_of dt) (cost_from ct) false t 6 (Some ([0; 2; 4; 5], [(0, 1); (2, 1); (4, 0)])) = 5 /\
   @C04_code FloatNum (dist_of dt) (cost_from ct) false t 6 None = 1.
+Proof. vm_compute. repeat split. Qed.
+
+(* ---- the same statements with the segment cost DERIVED in the model from the points (Model/RdpCost.v: end-point line of
+        points[l:r] as linear_fit computes it, fitted values m*x+b, the metric rdp.compute_cost_coef dispatches to; smape, rpd,
+        rmspe, R2 computed, rmsle an oracle).  This is the instance the correspondence run evaluates; the library's own composite
+        rdp.compute_cost_coef(points[l:r], lf.linear_fit_points(points[l:r]), cost) is compared with derived_cost bit for bit as an
+        extra conjunct of the judge. ---- *)
+Theorem C04_rdp_code_derived : forall (N : Num) (P : list (@pt N)) (eps : T N) (rmsle_cost : nat -> nat -> T N)
+    (dist : nat -> nat -> list (T N)) (m : metric) (t : T N) (n : nat),
+  curved (metric_is_r2 m) t (trivial_cost (metric_is_r2 m)) = false ->
+  (forall l r, l + 3 <= r -> r <= n -> length (dist l r) = r - l) ->
+  2 <= n ->
+  C04_code dist (derived_cost P eps rmsle_cost m) (metric_is_r2 m) t n
+    (without_iters (rdp dist (derived_cost P eps rmsle_cost m) (metric_is_r2 m) t n)) = 0.
+Proof. exact @rdp_C04_code_derived. Qed.
+Print Assumptions C04_rdp_code_derived.
+
+Theorem C04_rdp_kept_fit_derived : forall (N : Num) (P : list (@pt N)) (eps : T N) (rmsle_cost : nat -> nat -> T N)
+    (dist : nat -> nat -> list (T N)) (m : metric) (t : T N) (n : nat),
+  curved (metric_is_r2 m) t (trivial_cost (metric_is_r2 m)) = false ->
+  (forall l r, l + 3 <= r -> r <= n -> length (dist l r) = r - l) ->
+  2 <= n ->
+  forall red rem vis, rdp dist (derived_cost P eps rmsle_cost m) (metric_is_r2 m) t n = Some (red, rem, vis) ->
+  forall a b, In (a, b) (pairs red) -> 2 <= b - a ->
+  curved (metric_is_r2 m) t (derived_cost P eps rmsle_cost m a (b + 1)) = false.
+Proof. exact @rdp_kept_fit_derived. Qed.
+Print Assumptions C04_rdp_kept_fit_derived.
+
+Theorem C04_code_characterises_derived : forall (N : Num) (P : list (@pt N)) (eps : T N) (rmsle_cost : nat -> nat -> T N)
+    (dist : nat -> nat -> list (T N)) (m : metric) (t : T N) (n : nat),
+  curved (metric_is_r2 m) t (trivial_cost (metric_is_r2 m)) = false ->
+  (forall l r, l + 3 <= r -> r <= n -> length (dist l r) = r - l) ->
+  2 <= n ->
+  forall red rem, C04_code dist (derived_cost P eps rmsle_cost m) (metric_is_r2 m) t n (Some (red, rem)) = 0 ->
+  exists vis, rdp dist (derived_cost P eps rmsle_cost m) (metric_is_r2 m) t n = Some (red, rem, vis).
+Proof. exact @C04_code_unique_derived. Qed.
+Print Assumptions C04_code_characterises_derived.
+
+(* non-vacuity of the derived instance: the points of C04_example; the derived smape cost of the three visited ranges is
+   bit-identical to what rdp.compute_cost_coef returned (the table of C04_example), and the model run on derived costs gives
+   the same output *)
+Example C04_example_derived :
+  let P : list (float * float) := [(0, 1); (1, 3); (2, 2); (3, 5); (4, 1); (5, 2)]%float in
+  let ct : ctab := [(0, 6, 0x1.dfe21982cad3cp-2%float); (0, 4, 0x1.ad2d2d2d2d2d4p-3%float); (3, 6, 0x1.7b425ed097b43p-2%float)] in
+  let dt : dtab := [(0, 6, [0x0.0p+0%float; 0x1.c3da00d7ba4e0p+0%float; 0x1.2d3c008fd1895p-1%float; 0x1.aabfab7668d7ep+1%float; 0x1.91a556151761cp-1%float; 0x0.0p+0%float]);
+     (3, 6, [0x0.0p+0%float; 0x1.6a09e667f3bcdp+0%float; 0x0.0p+0%float])] in
+  cost_match MSmape P ct = true /\
+  @rdp FloatNum (dist_of dt) (segcost_of MSmape P []) false 0x1p-2%float 6 =
+    Some ([0; 3; 4; 5], [(0, 2); (3, 0); (4, 0)], [(0, 6); (0, 4); (3, 6); (3, 5); (4, 6)]) /\
+  cost_match MRpd P ct = false.
 Proof. vm_compute. repeat split. Qed.
